@@ -34,6 +34,6 @@ def run(ctx):
     ctx.explain("E-TABLE.step (quant, apply_quant, restrict): variable sets are positive cubes over up to three modelled "
                 "levels, restrict cubes carry both polarities (in canonical complement-edge form for BCDDs); the specification "
                 "folds and/or/xor over the cofactors of the listed variables resp. fixes the cube's literals.")
-    n = estep.run(ctx, F, kinds=("bdd", "bcdd"), parts=("quant", "restrict"))
+    n = estep.run(ctx, F, kinds=("bdd", "bcdd"), parts=("quant", "restrict", "subst"))
     ctx.floor("E-TABLE.step", "situations of the recursive step (quant, apply_quant, restrict)", n, 2500)
-    ctx.not_decided = "substitution (substitute / substitute_prepare beyond the unit discipline), behaviour under memory exhaustion"
+    ctx.not_decided = "construction of the substitution table (substitute_prepare, beyond its unit discipline), behaviour under memory exhaustion"
